@@ -308,6 +308,7 @@ enum V {
     U64(u64),
     I32(i32),
     Str(String),
+    Unit,
     None,
     Some(Box<V>),
     /// sequences, tuples and the fields of a struct (in declaration order)
@@ -334,6 +335,7 @@ impl<'a> D<'a> {
             V::U64(x) => vis.visit_u64(*x),
             V::I32(x) => vis.visit_i32(*x),
             V::Str(s) => vis.visit_str(s),
+            V::Unit => vis.visit_unit(),
             V::None => vis.visit_none(),
             V::Some(b) => vis.visit_some(D { v: b, ctl: self.ctl }),
             V::Seq(xs) => vis.visit_seq(SA { it: xs.iter(), ctl: self.ctl }),
@@ -749,6 +751,7 @@ enum P {
     I32(i32),
     Bool(bool),
     Str(String),
+    Unit,
     Pair(u32, String),
     Seq(Vec<u16>),
     Opt(Option<u8>),
@@ -772,6 +775,7 @@ fn parse_payload(t: &[&str]) -> Option<P> {
         ["i32", n] => n.parse().ok().map(P::I32),
         ["bool", b] => b.parse().ok().map(P::Bool),
         ["str", s] => s_tok(s).map(P::Str),
+        ["unit"] => Some(P::Unit),
         ["pair", n, s] => Some(P::Pair(n.parse().ok()?, s_tok(s)?)),
         ["seq", len, xs @ ..] => {
             let len: usize = len.parse().ok()?;
@@ -812,6 +816,7 @@ fn to_v(p: &P) -> V {
         P::I32(x) => V::I32(*x),
         P::Bool(b) => V::Bool(*b),
         P::Str(s) => V::Str(s.clone()),
+        P::Unit => V::Unit,
         P::Pair(n, s) => V::Seq(vec![V::U32(*n), V::Str(s.clone())]),
         P::Seq(xs) => V::Seq(xs.iter().map(|x| V::U16(*x)).collect()),
         P::Opt(o) => opt_v(o),
@@ -845,6 +850,7 @@ fn answer(line: &str) -> String {
             P::I32(x) => ser_case(x, k),
             P::Bool(x) => ser_case(x, k),
             P::Str(x) => ser_case(x, k),
+            P::Unit => ser_case(&(), k),
             P::Pair(n, s) => ser_case(&(*n, s.clone()), k),
             P::Seq(x) => ser_case(x, k),
             P::Opt(x) => ser_case(x, k),
@@ -858,6 +864,7 @@ fn answer(line: &str) -> String {
                 P::I32(_) => de_case::<i32>(&v, k),
                 P::Bool(_) => de_case::<bool>(&v, k),
                 P::Str(_) => de_case::<String>(&v, k),
+                P::Unit => de_case::<()>(&v, k),
                 P::Pair(..) => de_case::<(u32, String)>(&v, k),
                 P::Seq(_) => de_case::<Vec<u16>>(&v, k),
                 P::Opt(_) => de_case::<Option<u8>>(&v, k),
@@ -872,6 +879,7 @@ fn answer(line: &str) -> String {
                 P::I32(_) => dip_case::<i32>(&v, k),
                 P::Bool(_) => dip_case::<bool>(&v, k),
                 P::Str(_) => dip_case::<String>(&v, k),
+                P::Unit => dip_case::<()>(&v, k),
                 P::Pair(..) => dip_case::<(u32, String)>(&v, k),
                 P::Seq(_) => dip_case::<Vec<u16>>(&v, k),
                 P::Opt(_) => dip_case::<Option<u8>>(&v, k),
